@@ -59,6 +59,7 @@ type Obligation struct {
 	Region  string // known-finding region tag if split
 	Bounded bool
 	Results map[string]string
+	File    string // kept SMT query (sat / unknown answers)
 }
 
 type Exec struct {
